@@ -269,6 +269,57 @@ fn @name@() {
             functions=["SubRule::context_match_set", "SubRule::context_match_ipa", "SegPos::increment", "HashMap::clone (empty binding tables)"],
             symbolic="3 word bundles + 2 set bundles, stress, tone", shape="set {%s} in word [1, 2], %s" % (kinds, "forwards" if fw else "backwards"), unwind=8, stubs=STUBS, weight=2))
 
+    # ---------------------------------------------------------------- position arithmetic on concrete word shapes, SYMBOLIC position
+    # The cursor primitives every matcher shares: Word::in_bounds/out_of_bounds, SegPos::{increment, decrement, reversed,
+    # at_syll_start, at_syll_end, at_word_start, at_word_end}. The reference is the flat index of (syllable, segment).
+    pos_shapes = [(2, 1), (1, 2), (1, 1, 1), (3,), (2, 2), (1, 3)] if tier == "quick" else [tuple(c) for n in (2, 3, 4) for c in compositions(n)]
+    for comp in pos_shapes:
+        n = sum(comp); K = len(comp)
+        starts_ = [sum(comp[:i]) for i in range(K)]
+        nm = "c03_segpos_%s" % "".join(map(str, comp))
+        build = "\n".join("    w.syllables.push(syll_of(&[%s], any_stress(), kani::any()));" % ", ".join("any_seg()" for _ in range(ln)) for ln in comp)
+        hs.append(G.H(nm, "position-arithmetic", "subrule", G.T(HDR8 + """
+fn @name@() {
+    // word with syllable sizes @comp@; any position, in bounds or not
+    let mut w = empty_word();
+@build@
+    let lens: [usize; @K@] = [@lens@];
+    let starts: [usize; @K@] = [@starts@];
+    let si: usize = kani::any(); let gi: usize = kani::any();
+    kani::assume(si <= @K@ && gi <= 4);
+    let p = SegPos::new(si, gi);
+    let inb = si < @K@ && gi < lens[if si < @K@ { si } else { 0 }];
+    assert!(w.in_bounds(p) == inb, "role=in-bounds");
+    assert!(w.out_of_bounds(p) == !inb, "role=out-of-bounds-is-the-negation");
+    if inb {
+        let flat = starts[si] + gi;
+        assert!(p.at_syll_start() == (gi == 0), "role=at-syll-start");
+        assert!(p.at_syll_end(&w) == (gi + 1 == lens[si]), "role=at-syll-end");
+        assert!(p.at_word_start() == (flat == 0), "role=at-word-start");
+        assert!(p.at_word_end(&w) == (flat + 1 == @n@), "role=at-word-end");
+        assert!(p.reversed(&w) == SegPos::new(@K@ - 1 - si, lens[si] - 1 - gi), "role=reversed-position");
+        let mut q = p; q.increment(&w);
+        // the next segment in flat order; one past the last segment is (number of syllables, 0)
+        if gi + 1 < lens[si] { assert!(q == SegPos::new(si, gi + 1), "role=increment-inside-syllable"); }
+        else { assert!(q == SegPos::new(si + 1, 0), "role=increment-across-syllable-edge"); }
+        assert!(w.in_bounds(q) == (flat + 1 < @n@), "role=increment-leaves-word-only-at-the-end");
+        let mut r = p; r.decrement(&w);
+        if gi > 0 { assert!(r == SegPos::new(si, gi - 1), "role=decrement-inside-syllable"); }
+        else if si > 0 { assert!(r == SegPos::new(si - 1, lens[si - 1] - 1), "role=decrement-across-syllable-edge"); }
+        else { assert!(r == p, "role=decrement-at-word-start-stays"); }
+        if flat + 1 < @n@ { let mut b = q; b.decrement(&w); assert!(b == p, "role=decrement-undoes-increment"); }
+    }
+    @cov_edge@
+    kani::cover!(inb && si == @K@ - 1 && gi + 1 == lens[si]);
+    kani::cover!(!inb && si < @K@);
+    kani::cover!(si == @K@);
+    std::mem::forget(w);
+}
+""", name=nm, comp=list(comp), build=build, K=K, n=n, lens=", ".join(map(str, comp)), starts=", ".join(map(str, starts_)),
+            cov_edge=("kani::cover!(inb && gi + 1 == lens[si] && si + 1 < %d);" % K) if K > 1 else ""), shared=[G.SUBRULE_SHARED, SHARED],
+            functions=["Word::in_bounds", "Word::out_of_bounds", "SegPos::increment", "SegPos::decrement", "SegPos::reversed", "SegPos::at_syll_start", "SegPos::at_syll_end", "SegPos::at_word_start", "SegPos::at_word_end"],
+            symbolic="position (syllable index 0..=K, segment index 0..=4), bundles, stress, tone", shape="word %s" % list(comp), unwind=8, stubs=STUBS))
+
     hs.append(G.H("c03_twin_reach", "vacuity-twin", "subrule", G.T(HDR + """
 fn c03_twin_reach() {
     let x0 = any_seg(); let x1 = any_seg(); let c = any_seg();
@@ -288,7 +339,8 @@ fn c03_twin_reach() {
     return {
         "harnesses": hs, "cap_s": 900 if tier == "quick" else 1800, "jobs": 8,
         "bounds": ["words of 3 and 4 segments in every syllabification, every target position, environments with up to 2 elements per side from {IPA segment, #, $} (# only at the periphery): %d shapes in all, %d decided this run (14 fixed regression shapes + seeded stratified draw; VERIF_SEED=%d)" % (total, sum(1 for h in hs if h["family"] == "environment-selection"), seed),
-                   "environment states are passed as stack arrays (R5); unwind %d" % unwind, "every third shape runs the exception polarity (is_context=false)"],
+                   "environment states are passed as stack arrays (R5); unwind %d" % unwind,
+                   "sets: two alternatives from {IPA segment, $}; position arithmetic: every word shape of 2-4 segments (6 of them in the quick tier), syllable index 0..=K, segment index 0..=4", "every third shape runs the exception polarity (is_context=false)"],
         "outside": ["the six-line combinator SubRule::match_contexts_and_exceptions itself (context AND NOT exception over environment sets): it deep-clones Vec<Item> and a reversed Word, whose recursive clone/drop glue does not finish; the harness recombines the two halves the same way",
                     "the left-to-right scan ('as already rewritten'), input matching and the rewrite itself (SubRule::apply -> input_match_at -> substitution): whole-rule application does not finish under CBMC",
                     "one-slot matrices as environment elements: every such shape ran past 40 minutes (context_match_matrix -> match_modifiers inside the environment loop); match_modifiers is decided separately under C04",
